@@ -15,6 +15,7 @@ import (
 	"os/exec"
 	"os/signal"
 	"path/filepath"
+	"regexp"
 	"runtime"
 	"sort"
 	"strconv"
@@ -115,11 +116,46 @@ type buildOpts struct {
 
 // buildWorker instruments /repo and builds the worker. Returns the binary path
 // and the instrumentation report; err != nil means an infrastructure problem.
+// buildWorker builds the instrumented worker. When the build fails inside the added export file
+// (the tree under check renamed or retyped a private identifier the export file reads), the failing
+// functions of that file are replaced by stubs and the build is retried: the checks that do not need
+// them still run, the ones that call a stub report no verdict (see worker/main.go, "DEGRADED").
 func buildWorker(scratch string, bo buildOpts) (string, *instrument.Report, error) {
+	exportFile := ""
+	var stubbed []string
+	for attempt := 0; ; attempt++ {
+		bin, rep, err := buildWorkerOnce(scratch, bo, exportFile)
+		if rep != nil {
+			rep.Stubbed = stubbed
+		}
+		if err == nil || rep == nil || rep.ExportFile == "" || attempt >= 8 {
+			return bin, rep, err
+		}
+		// lines of the export file named by the compiler
+		re := regexp.MustCompile(regexp.QuoteMeta(rep.ExportFile) + `:(\d+):`)
+		var lines []int
+		for _, m := range re.FindAllStringSubmatch(err.Error(), -1) {
+			n, _ := strconv.Atoi(m[1])
+			lines = append(lines, n)
+		}
+		if len(lines) == 0 {
+			return bin, rep, err
+		}
+		next := filepath.Join(scratch, fmt.Sprintf("zz_verif_export_stub%s_%d.go", bo.outName, attempt))
+		names, serr := instrument.StubExport(rep.ExportFile, next, lines)
+		if serr != nil || len(names) == 0 {
+			return bin, rep, err
+		}
+		stubbed = append(stubbed, names...)
+		exportFile = next
+	}
+}
+
+func buildWorkerOnce(scratch string, bo buildOpts, exportFile string) (string, *instrument.Report, error) {
 	sub := filepath.Join(scratch, "ov"+bo.outName)
 	os.MkdirAll(sub, 0o755)
 	rep, err := instrument.Generate(instrument.Options{RepoDir: repoDir, BuildDir: "/repo", VerifDir: verifDir, OutDir: sub,
-		NoShim: bo.noShim, Dense: bo.dense, ExtraFiles: bo.extra})
+		NoShim: bo.noShim, Dense: bo.dense, ExtraFiles: bo.extra, ExportFile: exportFile})
 	if err != nil {
 		return "", nil, err
 	}
@@ -614,6 +650,15 @@ func doCheck(id, tier string, keep bool) int {
 	if len(results) == 0 {
 		return infra("no worker produced a result: " + firstLines(strings.Join(infraErrs, "; "), 20))
 	}
+	for _, n := range notes {
+		if strings.HasPrefix(n, "DEGRADED:") {
+			// a worker used a stubbed part of the instrumentation: nothing this check observed is believed
+			vios = map[string]*Violation{}
+			exhaustive = false
+			fmt.Printf("INFRA property=%s %s (the tree under check no longer compiles with that part of the export file; this check gives no verdict)\n", id, n)
+			break
+		}
+	}
 
 	// confirm candidates: replay each alone in a fresh process, 3 times
 	known := loadKnown()
@@ -767,7 +812,7 @@ func doCheck(id, tier string, keep bool) int {
 	cov["unreproducible_candidates"] = unrepro
 	if instr != nil {
 		cov["instrumentation"] = map[string]any{"rewritten_files": instr.Rewritten, "R1_imports": instr.R1, "R2_map_ranges": instr.R2,
-			"R3_time_now": instr.R3, "R4_dense_points": instr.R4, "degraded": instr.Degraded}
+			"R3_time_now": instr.R3, "R4_dense_points": instr.R4, "degraded": instr.Degraded, "stubbed_export_functions": instr.Stubbed}
 	}
 	if _, ok := cov["states"]; ok {
 		if _, ok2 := cov["traces_validated_against_impl"]; !ok2 {
